@@ -122,6 +122,23 @@ func (e *Exec) evalCallInner(st *State, call *ast.CallExpr) []Term {
 			return e.callFunc(st, call, o, nil, nil)
 		case *types.Var:
 			if lit := e.closures[o]; lit != nil {
+				// call-site assertions on a local closure (`call setVote assert[...]`): arguments are evaluated
+				// once for the assertion (they are side-effect free here) and again by the expansion
+				if len(e.frames) == 1 && e.spec == 0 && e.Fn.C != nil && e.assertFor[call] {
+					has := false
+					for _, ca := range e.Fn.C.Calls {
+						if ca.Callee == f.Name && !ca.After {
+							has = true
+						}
+					}
+					if has {
+						if sig, ok := e.typeOf(lit).(*types.Signature); ok {
+							args := e.evalArgs(st, call, sig)
+							e.callSiteAsserts(st, call, f.Name, Term{}, args)
+							return e.inlineClosureArgs(st, call, lit, args)
+						}
+					}
+				}
 				return e.inlineClosure(st, call, lit)
 			}
 			return e.callUnknown(st, call, "function value "+f.Name)
@@ -1080,11 +1097,18 @@ func (e *Exec) inline(st *State, call *ast.CallExpr, fi *FuncInfo, recv Term, ar
 }
 
 func (e *Exec) inlineClosure(st *State, call *ast.CallExpr, lit *ast.FuncLit) []Term {
+	return e.inlineClosureArgs(st, call, lit, nil)
+}
+
+// inlineClosureArgs expands a closure call; args != nil means the arguments have been evaluated already.
+func (e *Exec) inlineClosureArgs(st *State, call *ast.CallExpr, lit *ast.FuncLit, args []Term) []Term {
 	if len(e.frames) >= maxInlineDepth {
 		return e.callUnknown(st, call, "closure too deep")
 	}
 	sig := e.typeOf(lit).(*types.Signature)
-	args := e.evalArgs(st, call, sig)
+	if args == nil {
+		args = e.evalArgs(st, call, sig)
+	}
 	cur := e.fr()
 	f := e.pushFrame(cur.fi, cur.info)
 	f.closure = true
